@@ -44,8 +44,15 @@ def main():
             req = rp["native_attempts"][0]["request"]
         elif rp.get("failure", {}).get("request"):
             req = rp["failure"]["request"]
+        if req is None and rp.get("failure"):
+            # found natively by a bounded check on the real code: the record is the failing input and what was observed on it
+            print(json.dumps({"failing_input": rp["failure"], "tree": rp.get("repo")}, indent=1, default=str, ensure_ascii=False))
+            print("recorded by the bounded part of the check on the real code; `./vf check %s` re-runs it on the current tree" % rp.get("property"))
+            sys.exit(1)
         if req is None:
             print("no native input recorded for this obligation (no-failing-input-found)")
+            if rp.get("solver") or rp.get("pc"):
+                print(json.dumps({k: rp.get(k) for k in ("solver", "pc", "extra") if rp.get(k)}, indent=1, default=str)[:4000])
             sys.exit(0)
         out = check.native(req)
         print(json.dumps({"request": req, "result": out}, indent=1))
